@@ -194,6 +194,7 @@ impl LedgerOracle {
 impl Oracle for LedgerOracle {
     fn step(&mut self, _world: &World, step: &Step) -> Option<Violation> {
         let live_at_start: BTreeSet<u64> = self.ledger.live().map(|e| e.id).collect();
+        let newest_before_step: Option<u64> = self.ledger.events.keys().next_back().copied();
         if step.connected || step.disconnected {
             // no confirmation can arrive for responses of the old connection
             if self.sol.as_ref().map(|c| !c.ids.is_empty()).unwrap_or(false) || self.unsol.as_ref().map(|c| !c.ids.is_empty()).unwrap_or(false) {
@@ -236,6 +237,12 @@ impl Oracle for LedgerOracle {
             }
         }
 
+        // a solicited response whose confirmation did not come in time is no longer awaiting it: an identical fragment sent
+        // later is a new response (a READ repeated from idle is executed afresh), not a re-send
+        if step.callbacks.iter().any(|(_, cb)| matches!(cb, Cb::Info(s) if s.starts_with("solicited_confirm_timeout"))) {
+            self.sol = None;
+            self.last_sol_bytes = None;
+        }
         let sent_confirm: Option<(bool, u8)> = step.sent.as_ref().filter(|_| step.link_up).and_then(|s| {
             if s.bytes.len() == 2 && s.bytes[1] == refapp::FUNC_CONFIRM && s.src == _world.cfg.master_addr && s.bytes[0] & 0xC0 == 0xC0 {
                 Some((s.bytes[0] & 0x10 != 0, s.bytes[0] & 0x0F))
@@ -429,6 +436,7 @@ impl Oracle for LedgerOracle {
                 continue;
             }
             let unsol = frag.func == refapp::FUNC_UNSOL_RESPONSE;
+            let newest_at_write = crate::verif::sout::newest_event_at_write(step, rx.order, newest_before_step);
             // (i) every reported event is a live recorded event with exactly the recorded contents
             let mut ids: Vec<u64> = Vec::new();
             for m in &events {
@@ -440,6 +448,8 @@ impl Oracle for LedgerOracle {
                     .values()
                     .filter(|e| e.state == EvState::Live || (e.state == EvState::Discarded && discarded_now.contains(&e.id)))
                     .filter(|e| !ids.contains(&e.id))
+                    // only events that existed when the fragment was written
+                    .filter(|e| newest_at_write.map(|n| e.id <= n).unwrap_or(true))
                     .filter(|e| Ledger::matches(e, m))
                     .collect();
                 let last = ids.last().copied();
